@@ -331,7 +331,11 @@ func c14GenNest(r *rand.Rand) c14Nest {
 				m = 0
 			}
 			for j := 0; j < m; j++ {
-				l.Items = append(l.Items, strs[ip[j]])
+				it := strs[ip[j]]
+				if x := pick(r, c14ItemTexts); r.Intn(4) == 0 && x != "" {
+					it = x // the value range of an item (white space around it, case twins, non-ASCII, syntax look-alikes …)
+				}
+				l.Items = append(l.Items, it)
 			}
 			if len(l.Items) > 0 && r.Intn(6) == 0 {
 				l.Items = append(l.Items, l.Items[0]) // an item may occur twice
